@@ -1,6 +1,7 @@
 package indexsim
 
 import (
+	"verif/engines/knobs"
 	"bytes"
 	"context"
 	"encoding/json"
@@ -111,6 +112,8 @@ func (e engine) Gen(prop, tier string, run int, r *simcore.Rand) *harness.Plan {
 }
 
 func (e engine) Exec(rc *harness.RunCtx, p *harness.Plan) (out *harness.Outcome) {
+	knobsDone := knobs.Apply(p)
+	defer func() { knobsDone(out) }()
 	var cfg Config
 	if err := json.Unmarshal(p.Config, &cfg); err != nil {
 		return &harness.Outcome{Inconclusive: "bad config: " + err.Error()}
